@@ -4,27 +4,35 @@ Import ListNotations.
 From OvldV Require Import Model.Graph Spec.Overlay Proofs.GraphTab Proofs.GraphBase Proofs.GraphUpd Proofs.GraphInv Proofs.GraphProps.
 
 (* ================= lock ================= *)
-(* IA: the direct non-linkback parents of a used node are locked.   IB: a locked node has all its mixins locked. *)
+(* LockInv: for a used node c, every non-linkback node v from which c derives through linkback derivations only
+   (c itself included) has all its mixins locked.   LockClosed: a locked node has all its mixins locked.
+   LbChild: a linkback derivation is listed among the children of each of its parents. *)
 Definition LockInv (g : graph) : Prop :=
-  forall c y m z, g_get g c = Some y -> n_compiled y = true -> n_linkback y = false ->
-                  In m (n_mixins y) -> g_get g m = Some z -> n_locked z = true.
+  forall c yc v y m z, g_get g c = Some yc -> n_compiled yc = true -> Lb g v c -> g_get g v = Some y ->
+                       n_linkback y = false -> In m (n_mixins y) -> g_get g m = Some z -> n_locked z = true.
 
 Definition NoE : nat -> Prop := fun _ => False.
 Definition LockClosed (g : graph) : Prop := LC NoE g.
+
+Definition LbChild (g : graph) : Prop :=
+  forall c y p, g_get g c = Some y -> n_linkback y = true -> In p (n_mixins y) ->
+                exists x, g_get g p = Some x /\ In c (n_children x).
 
 Definition lk_rel (x y : node) : Prop :=
   n_mixins y = n_mixins x /\ n_linkback y = n_linkback x /\ (n_compiled y = true -> n_compiled x = true) /\
   (n_locked x = true -> n_locked y = true).
 
 Lemma LockInv_rel : forall g g',
-  (forall k y, g_get g' k = Some y -> exists x, g_get g k = Some x /\ lk_rel x y) -> LockInv g -> LockInv g'.
+  (forall k y, g_get g' k = Some y -> exists x, g_get g k = Some x /\ lk_rel x y) ->
+  (forall v c yc, g_get g' c = Some yc -> n_compiled yc = true -> Lb g' v c -> Lb g v c) ->
+  LockInv g -> LockInv g'.
 Proof.
-  intros g g' R Lg c y m z Ec Cy Ly Im Em.
-  destruct (R _ _ Ec) as [x [Ex (R1 & R2 & R3 & _)]]. destruct (R _ _ Em) as [w [Ew (_ & _ & _ & R4)]].
-  apply R4. eapply (Lg c x m w); eauto; congruence.
+  intros g g' R RL Lg c yc v y m z Ec Cy Lv Ev Ly Im Em.
+  destruct (R _ _ Ec) as [xc [Exc (_ & _ & Rc3 & _)]]. destruct (R _ _ Ev) as [x [Ex (R1 & R2 & _ & _)]].
+  destruct (R _ _ Em) as [w [Ew (_ & _ & _ & R4)]].
+  apply R4. eapply (Lg c xc v x m w); eauto; try congruence.
 Qed.
 
-(* same mixins and same lock flag everywhere: LC is inherited *)
 Lemma LC_rel : forall E g g',
   (forall k y, g_get g' k = Some y -> exists x, g_get g k = Some x /\ n_mixins y = n_mixins x /\ n_locked y = n_locked x) ->
   LC E g -> LC E g'.
@@ -35,22 +43,29 @@ Proof.
 Qed.
 
 Lemma gkeep_back : forall g g' k y, gkeep g g' -> g_get g' k = Some y -> exists x, g_get g k = Some x /\ keep x y.
+Proof. exact gkeep_back0. Qed.
+
+Lemma LbChild_gkeep : forall g g', gkeep g g' -> LbChild g -> LbChild g'.
 Proof.
-  intros g g' k y [L K] E. assert (k < length g) as Lk by (rewrite L; eapply g_get_lt; eauto).
-  destruct (g_get_some _ _ Lk) as [x Ex]. destruct (K _ _ Ex) as [y' [Ey' Ky]]. rewrite E in Ey'. injection Ey' as <-. eauto.
+  intros g g' K H c y' p Ec Ly Ip. destruct (gkeep_back _ _ _ _ K Ec) as [y [Ey Ky]].
+  destruct Ky as (_ & Km & _ & Kl & _). rewrite <- Km in Ip. rewrite <- Kl in Ly.
+  destruct (H _ _ _ Ey Ly Ip) as (x & Ex & Ic). destruct (proj2 K _ _ Ex) as [x' [Ex' Kx]].
+  exists x'. split; auto. destruct Kx as (_ & _ & Kc & _). rewrite <- Kc. auto.
 Qed.
 
 Lemma LockInv_upd : forall f g n g', upd f g n = Some g' -> LockInv g -> LockInv g'.
 Proof.
   intros f g n g' U. destruct (upd_spec _ _ _ _ U) as [(K & C & _) _].
-  apply LockInv_rel. intros k y Ey. destruct (gkeep_back _ _ _ _ K Ey) as [x [Ex Kx]]. exists x. split; auto.
-  destruct Kx as (_ & K2 & _ & K4 & K5 & _). repeat split; auto.
-  intros Cy. pose proof (C k) as Ck. rewrite (compiled_b_get _ _ _ Ey), (compiled_b_get _ _ _ Ex) in Ck. congruence.
+  apply LockInv_rel.
+  - intros k y Ey. destruct (gkeep_back _ _ _ _ K Ey) as [x [Ex Kx]]. exists x. split; auto.
+    destruct Kx as (_ & K2 & _ & K4 & K5 & _). repeat split; auto.
+    intros Cy. pose proof (C k) as Ck. rewrite (compiled_b_get _ _ _ Ey), (compiled_b_get _ _ _ Ex) in Ck. congruence.
+  - intros v c yc _ _. apply Lb_sk. apply same_sym. apply gkeep_same_sk. auto.
 Qed.
 
 Lemma set_own_back : forall g n t k y, g_get (g_mod g n (set_own t)) k = Some y ->
   exists x, g_get g k = Some x /\ n_mixins y = n_mixins x /\ n_linkback y = n_linkback x /\
-            n_compiled y = n_compiled x /\ n_locked y = n_locked x.
+            n_compiled y = n_compiled x /\ n_locked y = n_locked x /\ n_children y = n_children x.
 Proof.
   intros g n t k y Ey. rewrite g_get_mod in Ey. destruct (Nat.eqb k n) eqn:Ek.
   - apply Nat.eqb_eq in Ek. subst. destruct (g_get g n) as [x0|]; [|discriminate]. cbn in Ey. injection Ey as <-.
@@ -60,13 +75,24 @@ Qed.
 
 Lemma LockInv_set_own : forall g n t, LockInv g -> LockInv (g_mod g n (set_own t)).
 Proof.
-  intros g n t. apply LockInv_rel. intros k y Ey. destruct (set_own_back _ _ _ _ _ Ey) as (x & Ex & A & B & C & D).
-  exists x. split; auto. unfold lk_rel. repeat split; auto; congruence.
+  intros g n t. apply LockInv_rel.
+  - intros k y Ey. destruct (set_own_back _ _ _ _ _ Ey) as (x & Ex & A & B & C & D & _).
+    exists x. split; auto. unfold lk_rel. repeat split; auto; congruence.
+  - intros v c yc _ _. apply Lb_sk. apply same_sym. apply same_set_own.
 Qed.
 
 Lemma LC_set_own : forall E g n t, LC E g -> LC E (g_mod g n (set_own t)).
 Proof.
-  intros E g n t. apply LC_rel. intros k y Ey. destruct (set_own_back _ _ _ _ _ Ey) as (x & Ex & A & B & C & D). eauto.
+  intros E g n t. apply LC_rel. intros k y Ey. destruct (set_own_back _ _ _ _ _ Ey) as (x & Ex & A & B & C & D & _). eauto.
+Qed.
+
+Lemma LbChild_set_own : forall g n t, LbChild g -> LbChild (g_mod g n (set_own t)).
+Proof.
+  intros g n t H c y p Ec Ly Ip. destruct (set_own_back _ _ _ _ _ Ec) as (y0 & Ey0 & A & B & _).
+  rewrite A in Ip. rewrite B in Ly. destruct (H _ _ _ Ey0 Ly Ip) as (x & Ex & Ic).
+  rewrite g_get_mod. destruct (Nat.eqb p n) eqn:Ep.
+  - apply Nat.eqb_eq in Ep. subst. rewrite Ex. cbn. eexists. split; eauto.
+  - eauto.
 Qed.
 
 Lemma inv_mixin_lt : forall g c y m, Inv g -> g_get g c = Some y -> In m (n_mixins y) -> m < length g.
@@ -76,23 +102,38 @@ Proof.
   specialize (T _ Im). apply mterm_lt in T. lia.
 Qed.
 
-Lemma inv_ChildLb : forall g, Inv g -> ChildLb g.
-Proof.
-  intros g I p x c y Ep Ic Ec. destruct (inv_child _ I _ _ _ Ep Ic) as (y' & Ey' & _ & L). congruence.
-Qed.
+Lemma inv_ChildMix : forall g, Inv g -> ChildMix g.
+Proof. intros g I p x c Ep Ic. apply (inv_child _ I _ _ _ Ep Ic). Qed.
 
 (* --- create --- *)
+Lemma Lb_created_back : forall g ms lb v c, c < length g -> Lb (created g ms lb) v c -> Lb g v c.
+Proof.
+  intros g ms lb v c Lc H. destruct (created_old g ms lb) as (L & Enew & Old).
+  induction H as [a | a x' c0 c Ea Ic H IH]; [constructor|].
+  destruct (Nat.lt_ge_cases a (length g)) as [La|La].
+  - destruct (g_get_some _ _ La) as [x Ex]. destruct (Old _ _ Ex) as [y' [Ey' R]]. rewrite Ea in Ey'. injection Ey' as <-.
+    destruct R as (_ & _ & _ & _ & _ & _ & Hc). apply Hc in Ic. destruct Ic as [Ic|[-> _]].
+    + eapply lb_step; eauto.
+    + apply created_no_children in H. lia.
+  - assert (a = length g) as -> by (apply g_get_lt in Ea; lia). rewrite Enew in Ea. injection Ea as <-. cbn in Ic. contradiction.
+Qed.
+
 Lemma LockInv_create : forall g ms lb, Inv g -> LockInv g -> LockInv (created g ms lb).
 Proof.
-  intros g ms lb I Lg c y m z Ec Cy Ly Im Em.
+  intros g ms lb I Lg c yc v y m z Ec Cy Lv Ev Ly Im Em.
   destruct (created_old g ms lb) as (L & Enew & Old).
-  destruct (Nat.lt_ge_cases c (length g)) as [Lc|Lc].
-  - destruct (g_get_some _ _ Lc) as [x Ex]. destruct (Old _ _ Ex) as [y' [Ey' R]]. rewrite Ec in Ey'. injection Ey' as <-.
-    destruct R as (_ & R2 & R3 & _ & R5 & _). rewrite R2 in Im.
-    pose proof (inv_mixin_lt _ _ _ _ I Ex Im) as Lm. destruct (g_get_some _ _ Lm) as [w Ew].
-    destruct (Old _ _ Ew) as [z' [Ez' Rz]]. rewrite Em in Ez'. injection Ez' as <-.
-    destruct Rz as (_ & _ & _ & R4 & _). rewrite R4. eapply (Lg c x m w); eauto; congruence.
-  - assert (c = length g) as -> by (apply g_get_lt in Ec; lia). rewrite Enew in Ec. injection Ec as <-. discriminate.
+  assert (c < length g) as Lc.
+  { destruct (Nat.lt_ge_cases c (length g)); auto. assert (c = length g) as -> by (apply g_get_lt in Ec; lia).
+    rewrite Enew in Ec. injection Ec as <-. discriminate. }
+  pose proof (Lb_created_back _ _ _ _ _ Lc Lv) as Lv0.
+  assert (v < length g) as Lvv.
+  { inversion Lv0; subst; auto. eapply g_get_lt; eauto. }
+  destruct (g_get_some _ _ Lc) as [xc Exc]. destruct (Old _ _ Exc) as [yc' [Eyc' Rc]]. rewrite Ec in Eyc'. injection Eyc' as <-.
+  destruct (g_get_some _ _ Lvv) as [x Ex]. destruct (Old _ _ Ex) as [y' [Ey' R]]. rewrite Ev in Ey'. injection Ey' as <-.
+  destruct Rc as (_ & _ & _ & _ & Rc5 & _). destruct R as (_ & R2 & R3 & _).
+  rewrite R2 in Im. pose proof (inv_mixin_lt _ _ _ _ I Ex Im) as Lm. destruct (g_get_some _ _ Lm) as [w Ew].
+  destruct (Old _ _ Ew) as [z' [Ez' Rz]]. rewrite Em in Ez'. injection Ez' as <-.
+  destruct Rz as (_ & _ & _ & R4 & _). rewrite R4. eapply (Lg c xc v x m w); eauto; congruence.
 Qed.
 
 Lemma LC_create : forall g ms lb, Inv g -> LockClosed g -> LockClosed (created g ms lb).
@@ -106,6 +147,20 @@ Proof.
     destruct (Old _ _ Ew) as [z' [Ez' Rz]]. rewrite Eq in Ez'. injection Ez' as <-.
     destruct Rz as (_ & _ & _ & Rz4 & _). rewrite Rz4. eapply (H k x q w); eauto.
   - assert (k = length g) as -> by (apply g_get_lt in Ek; lia). rewrite Enew in Ek. injection Ek as <-. discriminate.
+Qed.
+
+Lemma LbChild_create : forall g ms lb, Inv g -> valid_ids g ms = true -> LbChild g -> LbChild (created g ms lb).
+Proof.
+  intros g ms lb I V H c y p Ec Ly Ip. destruct (created_old g ms lb) as (L & Enew & Old).
+  destruct (Nat.lt_ge_cases c (length g)) as [Lc|Lc].
+  - destruct (g_get_some _ _ Lc) as [y0 Ey0]. destruct (Old _ _ Ey0) as [y' [Ey' R]]. rewrite Ec in Ey'. injection Ey' as <-.
+    destruct R as (_ & R2 & R3 & _). rewrite R2 in Ip. rewrite R3 in Ly.
+    destruct (H _ _ _ Ey0 Ly Ip) as (x & Ex & Ic). destruct (Old _ _ Ex) as [x' [Ex' Rx]].
+    exists x'. split; auto. destruct Rx as (_ & _ & _ & _ & _ & _ & Hc). apply Hc. auto.
+  - assert (c = length g) as -> by (apply g_get_lt in Ec; lia). rewrite Enew in Ec. injection Ec as <-.
+    cbn in Ly, Ip. subst lb. rewrite valid_ids_spec in V. destruct (g_get_some _ _ (V _ Ip)) as [x Ex].
+    destruct (Old _ _ Ex) as [x' [Ex' Rx]]. exists x'. split; auto.
+    destruct Rx as (_ & _ & _ & _ & _ & _ & Hc). apply Hc. auto.
 Qed.
 
 (* --- add_mixins: the graph with the new edges, before _update --- *)
@@ -129,77 +184,130 @@ Proof.
   rewrite A6 in Iq by auto. rewrite B3. eapply (H k y0 q z0); eauto; try congruence; try (unfold NoE; tauto).
 Qed.
 
+Lemma LbChild_mixed : forall g n x ms, g_get g n = Some x -> valid_ids g ms = true -> LbChild g -> LbChild (mixed g n x ms).
+Proof.
+  intros g n x ms E V H c y p Ec Ly Ip. destruct (mixed_rel g n x ms E) as [L Old]. cbn zeta in Old.
+  assert (c < length g) as Lc by (rewrite <- L; eapply g_get_lt; eauto).
+  destruct (g_get_some _ _ Lc) as [y0 Ey0]. destruct (Old _ _ Ey0) as [y' [Ey' R]]. rewrite Ec in Ey'. injection Ey' as <-.
+  destruct R as (_ & R2 & _ & _ & _ & R6 & _). rewrite R2 in Ly.
+  assert (forall xp, g_get g p = Some xp -> In c (n_children xp) -> exists x', g_get (mixed g n x ms) p = Some x' /\ In c (n_children x')) as Keep.
+  { intros xp Exp Ic. destruct (Old _ _ Exp) as [xp' [Exp' Rp]]. exists xp'. split; auto.
+    destruct Rp as (_ & _ & _ & _ & _ & _ & Hc). apply Hc. auto. }
+  destruct (Nat.eqb c n) eqn:Ecn.
+  - apply Nat.eqb_eq in Ecn. subst c. rewrite E in Ey0. injection Ey0 as <-. rewrite R6 in Ip. apply in_app_iff in Ip.
+    destruct Ip as [Ip|Ip].
+    + destruct (H _ _ _ E Ly Ip) as (xp & Exp & Ic). eauto.
+    + assert (p < length g) as Lp.
+      { rewrite valid_ids_spec in V. apply V. apply filter_In in Ip. tauto. }
+      destruct (g_get_some _ _ Lp) as [xp Exp]. destruct (Old _ _ Exp) as [xp' [Exp' Rp]]. exists xp'. split; auto.
+      destruct Rp as (_ & _ & _ & _ & _ & _ & Hc). apply Hc. right. split; auto. rewrite Ly. auto.
+  - rewrite R6 in Ip. destruct (H _ _ _ Ey0 Ly Ip) as (xp & Exp & Ic). eauto.
+Qed.
+
+Lemma Lb_grow : forall g g', (forall a x, g_get g a = Some x -> exists y, g_get g' a = Some y /\ incl (n_children x) (n_children y)) ->
+  forall a k, Lb g a k -> Lb g' a k.
+Proof.
+  intros g g' H a k L. induction L; [constructor|].
+  destruct (H _ _ H0) as [y [Ey Inc]]. eapply lb_step; eauto.
+Qed.
+
+Lemma Lb_to_mixed : forall g n x ms a k, g_get g n = Some x -> Lb g a k -> Lb (mixed g n x ms) a k.
+Proof.
+  intros g n x ms a k E. apply Lb_grow. intros b z Ez.
+  destruct (mixed_rel g n x ms E) as [L Old]. cbn zeta in Old. destruct (Old _ _ Ez) as [y [Ey R]].
+  exists y. split; auto. destruct R as (_ & _ & _ & _ & _ & _ & Hc). intros c Ic. apply Hc. auto.
+Qed.
+
 (* after add_mixins + _update *)
 Lemma LockInv_mixed_upd : forall g n x ms g', Inv g -> g_get g n = Some x -> wf_b (mixed g n x ms) = true ->
   upd (length g) (mixed g n x ms) n = Some g' -> LockInv g -> LockInv g'.
 Proof.
-  intros g n x ms g' I E W U Lg c y m z Ec Cy Ly Im Em.
+  intros g n x ms g' I E W U Lg c yc v y m z Ec Cy Lv Ev Ly Im Em.
   set (g2 := mixed g n x ms) in *.
   pose proof (Inv_mixed g n x ms I E W) as I2. fold g2 in I2.
+  destruct (mixed_rel g n x ms E) as [L2 _]. fold g2 in L2.
   destruct (upd_spec _ _ _ _ U) as [(K & C & _) _].
-  destruct (Nat.eq_dec c n) as [->|Ne].
-  - pose proof (upd_UL _ _ _ _ (inv_ChildLb _ I2) U) as UL1.
-    eapply (UL1 n y m z); eauto. unfold visited. destruct (length g); cbn; rewrite Nat.eqb_refl; reflexivity.
-  - destruct (gkeep_back _ _ _ _ K Ec) as [y2 [Ey2 Ky]]. destruct (gkeep_back _ _ _ _ K Em) as [z2 [Ez2 Kz]].
-    destruct (mixed_back _ _ _ _ _ _ E Ey2) as (y0 & Ey0 & A2 & _ & A4 & _ & A6).
-    destruct (mixed_back _ _ _ _ _ _ E Ez2) as (z0 & Ez0 & _ & B3 & _).
-    destruct Ky as (_ & Km & _ & Kl & _). destruct Kz as (_ & _ & _ & _ & Klk & _).
-    apply Klk. rewrite B3. eapply (Lg c y0 m z0); eauto.
-    + pose proof (C c) as Cc. rewrite (compiled_b_get _ _ _ Ec), (compiled_b_get _ _ _ Ey2) in Cc. congruence.
-    + rewrite <- A6 by auto. rewrite Km. auto.
+  destruct (lb_b (length g) g2 n c) eqn:V.
+  - pose proof (upd_UL _ _ _ _ (inv_ChildMix _ I2) U) as UL1. eapply (UL1 c yc v y m z); eauto.
+  - assert (same sk g2 g') as Ssk by (apply gkeep_same_sk; auto).
+    assert (Lb g2 v c) as Lv2 by (eapply Lb_sk; [apply same_sym; exact Ssk | exact Lv]).
+    assert (~ Lb g2 n c) as NL.
+    { intros Q. rewrite lb_b_complete in V; [discriminate | | exact Q].
+      rewrite <- L2. apply inv_cterm; auto. rewrite L2. eapply g_get_lt; eauto. }
+    assert (Lb g v c) as Lv0.
+    { destruct (Lb_mixed _ _ _ _ _ _ E Lv2) as [Q|Q]; auto. exfalso. apply NL. apply Lb_to_mixed; auto. }
+    assert (v <> n) as Ne by (intros ->; apply NL; auto).
+    destruct (gkeep_back _ _ _ _ K Ec) as [yc2 [Ec2 Kc]]. destruct (gkeep_back _ _ _ _ K Ev) as [y2 [Ev2 Kv]].
+    destruct (gkeep_back _ _ _ _ K Em) as [z2 [Ez2 Kz]].
+    destruct (mixed_back _ _ _ _ _ _ E Ec2) as (yc0 & Ec0 & _ & _ & A4 & _).
+    destruct (mixed_back _ _ _ _ _ _ E Ev2) as (y0 & Ev0 & B2 & _ & _ & _ & B6).
+    destruct (mixed_back _ _ _ _ _ _ E Ez2) as (z0 & Ez0 & _ & D3 & _).
+    destruct Kv as (_ & Km & _ & Kl & _). destruct Kz as (_ & _ & _ & _ & Klk & _).
+    apply Klk. rewrite D3. eapply (Lg c yc0 v y0 m z0); eauto.
+    + pose proof (C c) as Cc. rewrite (compiled_b_get _ _ _ Ec), (compiled_b_get _ _ _ Ec2) in Cc. congruence.
+    + rewrite <- B6 by auto. rewrite Km. auto.
 Qed.
 
 (* --- first use --- *)
 Lemma LockInv_compile : forall g n g', Inv g -> compile g n = Some g' -> LockInv g -> LockInv g'.
 Proof.
-  intros g n g' I C Lg c y m z Ec Cy Ly Im Em.
+  intros g n g' I C Lg c yc v y m z Ec Cy Lv Ev Ly Im Em.
   pose proof (compile_gkeep _ _ _ C) as K.
-  destruct (gkeep_back _ _ _ _ K Ec) as [x [Ex Kx]]. destruct (gkeep_back _ _ _ _ K Em) as [w [Ew Kw]].
-  destruct Kx as (_ & Kx2 & _ & Kx4 & _). destruct Kw as (_ & _ & _ & _ & Kw5 & _).
   destruct (Nat.eq_dec c n) as [->|Ne].
-  - pose proof (compile_UL _ _ _ (inv_ChildLb _ I) C) as UL1. eapply (UL1 n y m z); eauto.
-  - destruct (compile_other _ _ _ _ _ C Ne Ex) as (y' & Ey' & Cy' & _). rewrite Ec in Ey'. injection Ey' as <-.
-    apply Kw5. eapply (Lg c x m w); eauto; congruence.
+  - pose proof (compile_UL _ _ _ (inv_ChildMix _ I) C) as UL1. eapply (UL1 n yc v y m z); eauto.
+  - destruct (gkeep_back _ _ _ _ K Ec) as [xc [Exc Kc]]. destruct (gkeep_back _ _ _ _ K Ev) as [x [Ex Kx]].
+    destruct (gkeep_back _ _ _ _ K Em) as [w [Ew Kw]].
+    destruct Kx as (_ & Kx2 & _ & Kx4 & _). destruct Kw as (_ & _ & _ & _ & Kw5 & _).
+    destruct (compile_other _ _ _ _ _ C Ne Exc) as (y' & Ey' & Cy' & _). rewrite Ec in Ey'. injection Ey' as <-.
+    apply Kw5. eapply (Lg c xc v x m w); eauto; try congruence.
+    eapply Lb_sk; [apply same_sym; apply gkeep_same_sk; exact K | exact Lv].
 Qed.
 
-Definition LK (g : graph) : Prop := LockInv g /\ LockClosed g.
+Definition LK (g : graph) : Prop := LockInv g /\ LockClosed g /\ LbChild g.
 
 Lemma LK_modify : forall g n t g', upd (length g) (g_mod g n (set_own t)) n = Some g' -> LK g -> LK g'.
 Proof.
-  intros g n t g' U [A B]. split.
+  intros g n t g' U (A & B & D). split; [|split].
   - eapply LockInv_upd; eauto. apply LockInv_set_own. auto.
   - eapply upd_LC; eauto. apply LC_set_own. auto.
+  - eapply LbChild_gkeep; [apply (upd_spec _ _ _ _ U)|]. apply LbChild_set_own. auto.
+Qed.
+
+Lemma LK_create : forall g ms lb, Inv g -> valid_ids g ms = true -> LK g -> LK (created g ms lb).
+Proof.
+  intros g ms lb I V (A & B & D). split; [apply LockInv_create | split; [apply LC_create | apply LbChild_create]]; auto.
 Qed.
 
 Lemma LK_step : forall g o, Inv g -> LK g -> LK (step_g g o).
 Proof.
-  intros g o I [A B]. unfold step_g. destruct o; cbn [step].
-  - destruct (valid_ids g mixins) eqn:V; [rewrite do_create_eq by auto | rewrite do_create_invalid by auto; split; auto].
-    split; [apply LockInv_create | apply LC_create]; auto.
-  - destruct (valid_ids g (n :: mixins)) eqn:V; [rewrite do_create_eq by auto | rewrite do_create_invalid by auto; split; auto].
-    split; [apply LockInv_create | apply LC_create]; auto.
-  - destruct (valid_ids g (n :: mixins)) eqn:V; [|rewrite do_create_invalid by auto; split; auto].
+  intros g o I H. unfold step_g. destruct o; cbn [step].
+  - destruct (valid_ids g mixins) eqn:V; [rewrite do_create_eq by auto | rewrite do_create_invalid by auto; auto].
+    apply LK_create; auto.
+  - destruct (valid_ids g (n :: mixins)) eqn:V; [rewrite do_create_eq by auto | rewrite do_create_invalid by auto; auto].
+    apply LK_create; auto.
+  - destruct (valid_ids g (n :: mixins)) eqn:V; [|rewrite do_create_invalid by auto; auto].
     rewrite do_create_eq by auto. rewrite do_register_unfold.
     destruct (do_modify_cases (created g (n :: mixins) lb) (length g) (t_register sig l))
       as [(x & t & g' & E & Lk & F & U & ->)|[Nd Eq]].
-    + cbn. eapply LK_modify; eauto. split; [apply LockInv_create | apply LC_create]; auto.
+    + cbn. eapply LK_modify; eauto. apply LK_create; auto.
     + destruct (do_modify (created g (n :: mixins) lb) (length g) (t_register sig l)) as [g2 o2].
-      cbn in *. destruct o2; cbn; try (split; auto; fail); congruence.
-  - destruct (do_add_mixins_cases g n ms) as [(x & E & Lk & F & ->)|[(x & g' & E & V & Lk & F & W & U & ->)|(_ & -> & _)]];
-      try (split; auto; fail).
-    cbn. split.
+      cbn in *. destruct o2; cbn; auto. congruence.
+  - destruct (do_add_mixins_cases g n ms) as [(x & E & Lk & F & ->)|[(x & g' & E & V & Lk & F & W & U & ->)|(_ & -> & _)]]; auto.
+    cbn. destruct H as (A & B & D). split; [|split].
     + eapply LockInv_mixed_upd; eauto.
     + eapply upd_LC; eauto. apply LC_mixed; auto.
+    + eapply LbChild_gkeep; [apply (upd_spec _ _ _ _ U)|]. apply LbChild_mixed; auto.
   - rewrite do_register_unfold.
-    destruct (do_modify_cases g n (t_register sig l)) as [(x & t & g' & E & Lk & F & U & ->)|[_ ->]]; [|split; auto].
-    cbn. eapply LK_modify; eauto. split; auto.
+    destruct (do_modify_cases g n (t_register sig l)) as [(x & t & g' & E & Lk & F & U & ->)|[_ ->]]; auto.
+    cbn. eapply LK_modify; eauto.
   - unfold do_unregister.
-    destruct (do_modify_cases g n (fun t => Some (t_remove l t))) as [(x & t & g' & E & Lk & F & U & ->)|[_ ->]]; [|split; auto].
-    cbn. eapply LK_modify; eauto. split; auto.
-  - unfold do_use. destruct (g_get g n) eqn:E; [|split; auto]. destruct (n_compiled n0); [split; auto|].
-    destruct (compile g n) eqn:C; [|split; auto]. cbn. split.
+    destruct (do_modify_cases g n (fun t => Some (t_remove l t))) as [(x & t & g' & E & Lk & F & U & ->)|[_ ->]]; auto.
+    cbn. eapply LK_modify; eauto.
+  - unfold do_use. destruct (g_get g n) eqn:E; auto. destruct (n_compiled n0); auto.
+    destruct (compile g n) eqn:C; auto. cbn. destruct H as (A & B & D). split; [|split].
     + eapply LockInv_compile; eauto.
     + eapply compile_LC; eauto.
+    + eapply LbChild_gkeep; [eapply compile_gkeep; eauto | auto].
 Qed.
 
 Lemma LK_run_from : forall ops g, Inv g -> LK g -> LK (run_from g ops).
@@ -208,7 +316,7 @@ Proof.
 Qed.
 
 Lemma LK_nil : LK [].
-Proof. split; intros c y; intros; destruct c; discriminate. Qed.
+Proof. split; [|split]; intros c y; intros; destruct c; discriminate. Qed.
 
 Lemma LK_run : forall ops, LK (run ops).
 Proof. intros. apply LK_run_from; [apply Inv_nil | apply LK_nil]. Qed.
@@ -223,15 +331,32 @@ Proof.
   apply (IH y Ey). eapply (H m x q y); eauto.
 Qed.
 
-(* the full lock statement: once c is in use, every function c derives from through a path whose first derivation is not
-   a linkback one refuses modification (plain paths of any length, and plain-then-linkback paths) *)
-Lemma lock_full : forall ops c y m a, let g := run ops in
-  g_get g c = Some y -> n_compiled y = true -> n_linkback y = false -> In m (n_mixins y) -> Anc g a m ->
-  exists w, g_get g a = Some w /\ n_locked w = true.
+(* the full lock statement: once c is in use, for every non-linkback node v from which c derives through linkback
+   derivations only (c itself, if it is not a linkback derivation; else the first non-linkback node up its chain of
+   linkback parents), every mixin m of v and everything m derives from refuses modification *)
+Lemma lock_full : forall ops c yc v y m a, let g := run ops in
+  g_get g c = Some yc -> n_compiled yc = true -> Lb g v c -> g_get g v = Some y -> n_linkback y = false ->
+  In m (n_mixins y) -> Anc g a m -> exists w, g_get g a = Some w /\ n_locked w = true.
 Proof.
-  intros ops c y m a g Ec Cy Ly Im An. pose proof (Inv_run ops) as I. destruct (LK_run ops) as [A B]. fold g in I, A, B.
-  pose proof (inv_mixin_lt _ _ _ _ I Ec Im) as Lm. destruct (g_get_some _ _ Lm) as [z Ez].
+  intros ops c yc v y m a g Ec Cy Lv Ev Ly Im An. pose proof (Inv_run ops) as I. destruct (LK_run ops) as (A & B & _).
+  fold g in I, A, B.
+  pose proof (inv_mixin_lt _ _ _ _ I Ev Im) as Lm. destruct (g_get_some _ _ Lm) as [z Ez].
   eapply locked_up; eauto.
+Qed.
+
+(* a modifiable ancestor of a used node reaches it through linkback derivations only *)
+Lemma unlocked_anc_lb : forall g N xN c yc, Inv g -> LK g -> g_get g N = Some xN -> n_locked xN = false ->
+  g_get g c = Some yc -> n_compiled yc = true -> Anc g N c -> Lb g N c.
+Proof.
+  intros g N xN c yc I (A & B & D) EN LN Ec Cy An.
+  assert (forall v, Anc g N v -> Lb g v c -> Lb g N c) as X.
+  { intros v Av. induction Av as [|v x m Ev Im Av IH]; auto. intros Lv.
+    pose proof (inv_mixin_lt _ _ _ _ I Ev Im) as Lm. destruct (g_get_some _ _ Lm) as [z Ez].
+    destruct (n_linkback x) eqn:Lx.
+    - destruct (D _ _ _ Ev Lx Im) as (xm & Exm & Ic). apply IH. eapply lb_step; eauto.
+    - exfalso. assert (n_locked z = true) as Lz by (eapply (A c yc v x m z); eauto).
+      destruct (locked_up g N m I B Av z Ez Lz) as (w & Ew & Lw). congruence. }
+  apply (X c An). constructor.
 Qed.
 
 (* ================= linkback: every later change of an ancestor is visible ================= *)
@@ -250,20 +375,6 @@ Proof.
   - destruct (n_compiled n0) eqn:Ck; auto.
     rewrite (F k n0 V Ek Ck). rewrite L'. apply gkeep_defns. auto.
   - symmetry. apply defns_none. auto.
-Qed.
-
-Lemma Lb_grow : forall g g', (forall a x, g_get g a = Some x -> exists y, g_get g' a = Some y /\ incl (n_children x) (n_children y)) ->
-  forall a k, Lb g a k -> Lb g' a k.
-Proof.
-  intros g g' H a k L. induction L; [constructor|].
-  destruct (H _ _ H0) as [y [Ey Inc]]. eapply lb_step; eauto.
-Qed.
-
-Lemma Lb_to_mixed : forall g n x ms a k, g_get g n = Some x -> Lb g a k -> Lb (mixed g n x ms) a k.
-Proof.
-  intros g n x ms a k E. apply Lb_grow. intros b z Ez.
-  destruct (mixed_rel g n x ms E) as [L Old]. cbn zeta in Old. destruct (Old _ _ Ez) as [y [Ey R]].
-  exists y. split; auto. destruct R as (_ & _ & _ & _ & _ & _ & Hc). intros c Ic. apply Hc. auto.
 Qed.
 
 Lemma linkback : forall ops o k, let g := run ops in
@@ -407,62 +518,57 @@ Proof.
   - eapply g_get_lt; eauto.
 Qed.
 
-Lemma exposed_mod_nil : forall g n, exposed_mod g n = [] ->
+(* since the lock is complete, a successful change at n reaches every used node that derives from n *)
+Lemma reach_all : forall g n x, Inv g -> LK g -> g_get g n = Some x -> n_locked x = false ->
   forall c, c < length g -> compiled_b g c = true -> anc_b (length g) g n c = true -> lb_b (length g) g n c = true.
 Proof.
-  intros g n H c Lc Cc Ac. pose proof (filter_nil _ _ _ H c) as Q. cbv beta in Q.
-  rewrite Cc, Ac in Q. cbn in Q. destruct (lb_b (length g) g n c); auto. discriminate Q. apply in_seq. lia.
+  intros g n x I H E Lk c Lc Cc Ac. destruct (g_get_some _ _ Lc) as [yc Ec].
+  unfold compiled_b in Cc. rewrite Ec in Cc. apply anc_b_sound in Ac.
+  apply lb_b_complete; [apply inv_cterm; auto; eapply g_get_lt; eauto|].
+  eapply unlocked_anc_lb; eauto.
 Qed.
 
-Lemma Fresh_step : forall g o, Inv g -> Fresh g -> (is_done (snd (step g o)) = false \/ exposed g o = []) -> Fresh (step_g g o).
+Lemma Fresh_step : forall g o, Inv g -> LK g -> Fresh g -> Fresh (step_g g o).
 Proof.
-  intros g o I Fg H.
-  destruct (is_done (snd (step g o))) eqn:D.
-  2:{ rewrite refused_unchanged; auto. intros Q. rewrite Q in D. discriminate. }
-  destruct H as [H|H]; [discriminate|].
-  unfold step_g. destruct o; cbn [step exposed] in *.
+  intros g o I H Fg. unfold step_g. destruct o; cbn [step].
   - destruct (valid_ids g mixins) eqn:V; [rewrite do_create_eq by auto; apply Fresh_create; auto | rewrite do_create_invalid by auto; auto].
   - destruct (valid_ids g (n :: mixins)) eqn:V; [rewrite do_create_eq by auto; apply Fresh_create; auto | rewrite do_create_invalid by auto; auto].
   - destruct (valid_ids g (n :: mixins)) eqn:V; [|rewrite do_create_invalid by auto; auto].
     rewrite do_create_eq by auto. rewrite do_register_unfold.
     pose proof (Inv_create g (n :: mixins) lb I V) as I1.
-    destruct (created_old g (n :: mixins) lb) as (L1 & Enew & Old).
     destruct (do_modify_cases (created g (n :: mixins) lb) (length g) (t_register sig l))
       as [(x & t & g' & E & Lk & F & U & ->)|[Nd Eq]].
     + cbn. eapply Fresh_modify; eauto.
       * apply Fresh_create; auto.
       * eapply register_nodup; eauto. eapply inv_nodup; eauto.
-      * intros c Lc Cc Ac. rewrite L1 in *.
-        destruct (Nat.eq_dec c (length g)) as [->|Ne].
-        -- unfold compiled_b in Cc. rewrite Enew in Cc. discriminate.
-        -- rewrite anc_b_new in Ac; [discriminate | auto | lia].
+      * eapply reach_all; eauto. apply LK_create; auto.
     + destruct (do_modify (created g (n :: mixins) lb) (length g) (t_register sig l)) as [g2 o2].
       cbn in *. destruct o2; cbn; auto. congruence.
   - destruct (do_add_mixins_cases g n ms) as [(x & E & Lk & F & ->)|[(x & g' & E & V & Lk & F & W & U & ->)|(_ & -> & _)]]; auto.
-    cbn. eapply Fresh_mixed_upd; eauto. apply exposed_mod_nil.
-    fold (nself n ms) in H. destruct (nself n ms); [congruence|]. exact H.
+    cbn. eapply Fresh_mixed_upd; eauto. eapply reach_all; eauto.
   - rewrite do_register_unfold.
     destruct (do_modify_cases g n (t_register sig l)) as [(x & t & g' & E & Lk & F & U & ->)|[_ ->]]; auto.
     cbn. eapply Fresh_modify; eauto.
     + eapply register_nodup; eauto. eapply inv_nodup; eauto.
-    + apply exposed_mod_nil. auto.
+    + eapply reach_all; eauto.
   - unfold do_unregister.
     destruct (do_modify_cases g n (fun t => Some (t_remove l t))) as [(x & t & g' & E & Lk & F & U & ->)|[_ ->]]; auto.
     cbn. eapply Fresh_modify; eauto.
     + injection F as <-. apply nodup_t_remove. eapply inv_nodup; eauto.
-    + apply exposed_mod_nil. auto.
+    + eapply reach_all; eauto.
   - unfold do_use. destruct (g_get g n) eqn:E; auto. destruct (n_compiled n0); auto.
     destruct (compile g n) eqn:C; auto. cbn. eapply Fresh_compile; eauto.
 Qed.
 
-Lemma fresh_from : forall ops g, Inv g -> Fresh g -> stale_free_from g ops = true -> Fresh (run_from g ops).
+Lemma fresh_from : forall ops g, Inv g -> LK g -> Fresh g -> Fresh (run_from g ops).
 Proof.
-  induction ops as [|o r IH]; cbn; intros g I Fg H; auto.
-  apply andb_true_iff in H. destruct H as [H1 H2]. apply IH; auto.
-  - apply Inv_step; auto.
-  - apply Fresh_step; auto. apply orb_true_iff in H1. destruct H1 as [H1|H1].
-    + left. apply negb_true_iff. auto.
-    + right. destruct (exposed g o); auto. discriminate.
+  induction ops as [|o r IH]; cbn; intros g I H Fg; auto.
+  apply IH; [apply Inv_step | apply LK_step | apply Fresh_step]; auto.
+Qed.
+
+Lemma Fresh_run : forall ops, Fresh (run ops).
+Proof.
+  intros. apply fresh_from; [apply Inv_nil | apply LK_nil |]. intros k y Ek. destruct k; discriminate.
 Qed.
 
 Lemma fresh_obs : forall g n, Fresh g -> n < length g -> obs g n = defns (length g) g n.
@@ -471,14 +577,17 @@ Proof.
   destruct (n_compiled x) eqn:C; auto.
 Qed.
 
-Lemma overlay_used : forall ops n x t, stale_free ops = true -> let g := run ops in
+(* every node of every history shows exactly what a rebuild would give now *)
+Lemma always_fresh : forall ops n, n < length (run ops) -> obs (run ops) n = defns (length (run ops)) (run ops) n.
+Proof. intros. apply fresh_obs; auto. apply Fresh_run. Qed.
+
+Lemma overlay_used : forall ops n x t, let g := run ops in
   g_get g n = Some x -> obs g n = Some t ->
   exists pts, Forall2 (fun m pt => obs g m = Some pt) (n_mixins x) pts /\
               forall k, t_get k t = overlay_get k pts (n_own x).
 Proof.
-  intros ops n x t SF g E O. pose proof (Inv_run ops) as I. fold g in I.
-  assert (Fresh g) as Fg.
-  { apply (fresh_from ops [] Inv_nil); auto. intros k y Ek. destruct k; discriminate. }
+  intros ops n x t g E O. pose proof (Inv_run ops) as I. fold g in I.
+  pose proof (Fresh_run ops) as Fg. fold g in Fg.
   rewrite fresh_obs in O; auto; [|eapply g_get_lt; eauto].
   destruct (overlay_defns g n x t I E O) as [pts [F2 Hk]]. exists pts. split; auto.
   assert (forall m, In m (n_mixins x) -> m < length g) as Lm by (intros; eapply inv_mixin_lt; eauto).
@@ -500,7 +609,8 @@ Lemma lock_nlpath : forall ops c y a, let g := run ops in
   g_get g c = Some y -> n_compiled y = true -> NLPath g c a -> exists w, g_get g a = Some w /\ n_locked w = true.
 Proof.
   intros ops c y a g Ec Cy P. destruct (NLPath_Anc _ _ _ P) as (y' & m & Ey' & Ly & Im & An).
-  fold g in Ey'. rewrite Ec in Ey'. injection Ey' as <-. eapply lock_full; eauto.
+  fold g in Ey'. rewrite Ec in Ey'. injection Ey' as <-.
+  eapply (lock_full ops c y c y m a); eauto. constructor.
 Qed.
 
 Lemma lock_closed : forall ops a m z, let g := run ops in
